@@ -1125,8 +1125,14 @@ class Interp:
     def ex_UnaryOp(self, node, env):
         return self.ops.unary(node.op, self.eval(node.operand, env))
 
+    def _formula_scope(self, env):
+        m = env.module
+        return m is not None and m.name.startswith(('spec', '<contract>'))
+
     def ex_BoolOp(self, node, env):
         isand = isinstance(node.op, ast.And)
+        if self._formula_scope(env):
+            return self._boolop_formula(node, env, isand)
         n = len(node.values)
         for i, e in enumerate(node.values):
             v = self.eval(e, env)
@@ -1139,6 +1145,42 @@ class Interp:
                     return t
                 return v
         return None
+
+    def _boolop_formula(self, node, env, isand):
+        """spec / clause code: build And / Or formulas instead of forking;
+        later operands are evaluated under the earlier ones (guards)"""
+        ctx = self.ctx
+        terms = []
+        n0 = len(ctx.pc)
+        depth0 = ctx.temp_depth
+        try:
+            for e in node.values:
+                v = self.eval(e, env)
+                t = self.ops.truth_value(v)
+                if isinstance(t, NDArr):
+                    t = self.ops.all_(_flatten(t.data))
+                if isinstance(t, bool):
+                    if isand and not t:
+                        return False
+                    if not isand and t:
+                        return True
+                    continue
+                terms.append(t.t)
+                g = t.t if isand else z3.Not(t.t)
+                if not ctx.feasible(g):
+                    # the rest is unreachable: (and) t is false here / (or)
+                    # t is true here
+                    break
+                ctx.pc.append(g)
+                ctx.temp_depth += 1
+        finally:
+            del ctx.pc[n0:]
+            ctx.temp_depth = depth0
+        if not terms:
+            return isand
+        if len(terms) == 1:
+            return mk(terms[0])
+        return mk(z3.And(*terms) if isand else z3.Or(*terms))
 
     def ex_Compare(self, node, env):
         left = self.eval(node.left, env)
@@ -1156,7 +1198,30 @@ class Interp:
         return res
 
     def ex_IfExp(self, node, env):
-        if self.ops.truth(self.eval(node.test, env)):
+        c = self.eval(node.test, env)
+        if self._formula_scope(env):
+            t = self.ops.truth_value(c)
+            if isinstance(t, Sym):
+                ctx = self.ctx
+                can_t = ctx.feasible(t.t)
+                can_f = ctx.feasible(z3.Not(t.t))
+                if can_t and not can_f:
+                    return self.eval(node.body, env)
+                if can_f and not can_t:
+                    return self.eval(node.orelse, env)
+                with ctx.assuming(t.t):
+                    a = self.eval(node.body, env)
+                with ctx.assuming(z3.Not(t.t)):
+                    b = self.eval(node.orelse, env)
+                if (is_num(a) or isinstance(a, (bool, Sym))) and \
+                        (is_num(b) or isinstance(b, (bool, Sym))):
+                    return self.ops.ite(t, a, b)
+                if a is b:
+                    return a
+                raise Unsupported('conditional expression over non-scalars '
+                                  'in a clause')
+            return self.eval(node.body if t else node.orelse, env)
+        if self.ops.truth(c):
             return self.eval(node.body, env)
         return self.eval(node.orelse, env)
 
@@ -1177,7 +1242,9 @@ class Interp:
         # special forms of the contract language
         if isinstance(node.func, ast.Name):
             sf = getattr(self, 'special_forms', {}).get(node.func.id)
-            if sf is not None and not env.lookup(node.func.id)[0]:
+            if sf is not None and not env.lookup(node.func.id)[0] and (
+                    env.module is None or env.module.name.startswith(
+                        ('spec', '<contract>'))):
                 return sf(self, node, env)
             if node.func.id == 'super' and not node.args:
                 fn = env
